@@ -58,6 +58,27 @@ def mk_candles(n, toks):
     return [mk_candle(t) for t in parse_candle_tuples(n, toks)]
 
 
+def encode_input(ps, tuples):
+    """the caller-side encoding of candles for append(): enc=candle|dict|list|tlist, single=1 for one bare item"""
+    enc = ps.get("enc") or "candle"
+    if enc == "candle":
+        data = [mk_candle(t) for t in tuples]
+    elif enc == "dict":
+        data = []
+        for t in tuples:
+            d = dict(open=t[1], high=t[2], low=t[3], close=t[4], volume=t[5])
+            if t[0] is not None:
+                d["timestamp"] = wire.secs_to_ts(t[0])
+            data.append(d)
+    elif enc == "list":
+        data = [[t[1], t[2], t[3], t[4], t[5]] + ([wire.secs_to_ts(t[0])] if t[0] is not None else []) for t in tuples]
+    else:  # tlist: timestamp first
+        data = [([wire.secs_to_ts(t[0])] if t[0] is not None else []) + [t[1], t[2], t[3], t[4], t[5]] for t in tuples]
+    if ps.get("single") == "1" and len(data) == 1:
+        return data[0]
+    return data
+
+
 def mgr_kwargs(ps):
     kw = {}
     kw["timeframe"] = ps.get("tf")
@@ -220,7 +241,7 @@ class ImplRunner:
             ps, rest = split_params(rest)
             if self.mgr is None:
                 return ["bad-op"]
-            cs = mk_candles(int(ps["n"]), rest)
+            cs = encode_input(ps, parse_candle_tuples(int(ps["n"]), rest))
             m = self.mgr
 
             def f():
@@ -255,7 +276,7 @@ class ImplRunner:
             return [f"ok name={self.ind.name}"] if r == ["ok"] else r
         if op == "iapp":
             ps, rest = split_params(rest)
-            cs = mk_candles(int(ps["n"]), rest)
+            cs = encode_input(ps, parse_candle_tuples(int(ps["n"]), rest))
             return self._ind_op(lambda i: i.append(cs))
         if op == "icalc":
             return self._ind_op(lambda i: i.calculate())
@@ -343,14 +364,7 @@ class ImplRunner:
             return self._hex_op(lambda h: h.add_indicator(members))
         if op == "happ":
             ps, rest = split_params(rest)
-            tuples = parse_candle_tuples(int(ps["n"]), rest)
-            enc = ps.get("enc") or "candle"
-            if enc == "candle":
-                data = [mk_candle(t) for t in tuples]
-            elif enc == "dict":
-                data = [dict(open=t[1], high=t[2], low=t[3], close=t[4], volume=t[5], timestamp=wire.secs_to_ts(t[0])) for t in tuples]
-            else:
-                data = [[t[1], t[2], t[3], t[4], t[5]] + ([wire.secs_to_ts(t[0])] if t[0] is not None else []) for t in tuples]
+            data = encode_input(ps, parse_candle_tuples(int(ps["n"]), rest))
             return self._hex_op(lambda h: h.append(data))
         if op in ("hcalc", "hpurge", "hrecalc", "hcidx", "hrem"):
             ps, _ = split_params(rest)
